@@ -120,6 +120,16 @@ class QModuleMixin(ABC):
         if activations is not None and not isinstance(activations, qtype):
             activations = qtypes[activations]
         self.weight_qtype = weights
+        self._set_weight_group_size()
+        self.activation_qtype = activations
+        self.optimizer = optimizer
+        # The activation scales have the dtype (and device) of the module
+        scale_kwargs = {"dtype": kwargs.get("dtype"), "device": kwargs.get("device")}
+        self.register_buffer("input_scale", torch.ones((), **scale_kwargs))
+        self.register_buffer("output_scale", torch.ones((), **scale_kwargs))
+
+    def _set_weight_group_size(self):
+        # The group size only depends on the weight qtype and shape
         self.weight_group_size = None
         if self.weight_qtype in (qint2, qint4):
             out_features = self.weight.shape[0]
@@ -130,12 +140,6 @@ class QModuleMixin(ABC):
                     group_size -= 32
                 if in_features % group_size == 0:
                     self.weight_group_size = group_size
-        self.activation_qtype = activations
-        self.optimizer = optimizer
-        # The activation scales have the dtype (and device) of the module
-        scale_kwargs = {"dtype": kwargs.get("dtype"), "device": kwargs.get("device")}
-        self.register_buffer("input_scale", torch.ones((), **scale_kwargs))
-        self.register_buffer("output_scale", torch.ones((), **scale_kwargs))
 
     def _save_to_state_dict(self, destination, prefix, keep_vars):
         if self.weight_qtype is None or not self.frozen:
@@ -158,6 +162,8 @@ class QModuleMixin(ABC):
     ):
         weight_qtype = state_dict.pop(prefix + "weight_qtype")
         self.weight_qtype = None if weight_qtype == "none" else qtypes[weight_qtype]
+        # The weight qtype may have changed: update the group size used to quantize float weights
+        self._set_weight_group_size()
         activation_qtype = state_dict.pop(prefix + "activation_qtype")
         self.activation_qtype = None if activation_qtype == "none" else qtypes[activation_qtype]
 
